@@ -88,9 +88,33 @@ def coq_build(targets=None, timeout=3000):
     return rc == 0, (out + err)[-4000:]
 
 
-def forbidden_scan():
+def cone(pid):
+    """the files Properties/<pid>.v depends on (transitively, inside this development)"""
+    files = coq_files()
+    by_mod = {os.path.splitext(os.path.basename(f))[0]: f for f in files}
+    start = 'Properties/%s.v' % pid
+    seen, todo = [], [start]
+    while todo:
+        f = todo.pop()
+        if f in seen or not os.path.exists(os.path.join(COQ, f)):
+            continue
+        seen.append(f)
+        txt = open(os.path.join(COQ, f)).read()
+        for m in re.finditer(r'From\s+DoitV\s+Require\s+(?:Import|Export)\s+([^.]*)\.', txt):
+            for mod in m.group(1).split():
+                if mod in by_mod:
+                    todo.append(by_mod[mod])
+        for m in re.finditer(r'^\s*Require\s+(?:Import|Export)\s+([^.]*)\.', txt, flags=re.M):
+            for mod in m.group(1).split():
+                mod = mod.split('.')[-1]
+                if mod in by_mod:
+                    todo.append(by_mod[mod])
+    return seen
+
+
+def forbidden_scan(pid=None):
     hits = []
-    for f in coq_files():
+    for f in (cone(pid) if pid else coq_files()):
         txt = open(os.path.join(COQ, f)).read()
         # strip comments (non-nested is enough for our sources; nested handled by loop)
         prev = None
@@ -265,7 +289,7 @@ def finish(ctx, out, level_text_partial=None):
     t_build = time.time()
     ok_build, log_build = coq_build(['Properties/%s.vo' % pid])
     ok_prop, thms, assum, log_prop = coq_property(pid) if ok_build else (False, [], {}, '')
-    hits = forbidden_scan()
+    hits = forbidden_scan(pid)
     bad_axioms = {t: [a for a in ax if a.split('.')[-1] not in {x.split('.')[-1] for x in ALLOWED_AXIOMS}] for t, ax in assum.items()}
     bad_axioms = {t: a for t, a in bad_axioms.items() if a}
     proof_ok = ok_build and ok_prop and not hits and not bad_axioms
